@@ -433,6 +433,51 @@ theorem listings_invisible (ops : List (Env × XOp)) (fs : FS) (h : XHealthy cfg
   obtain ⟨_, b2, _⟩ := ListRefine.cache_refines_map_ext cfg cache _ fs h hl hops'
   rw [b1, b2, xSpecRun_drop_reads]
 
+/-- An index operation that (re)defines its key: insertion or removal. -/
+def isIndexWrite : IOp → Bool
+  | .look _ => false
+  | _ => true
+
+/-- **The last write to a key shadows whatever was done to that key before**, abstractly. -/
+theorem specStep_shadow (env1 env2 : Env) (m : AbsIndex) (op1 op2 : IOp) (hk : iopKey op1 = iopKey op2)
+    (hw : isIndexWrite op2 = true) :
+    (specStep env2 (specStep env1 m op1).1 op2).1 = (specStep env2 m op2).1 := by
+  cases op2 with
+  | look key => cases hw
+  | ins key o =>
+    cases op1 <;> simp only [iopKey] at hk <;> subst hk <;> simp only [specStep] <;>
+      first | rfl | (funext k; split <;> simp_all)
+  | del key =>
+    cases op1 <;> simp only [iopKey] at hk <;> subst hk <;> simp only [specStep] <;>
+      first | rfl | (funext k; split <;> simp_all)
+
+/-- **Earlier entries never resurface — an overwritten or removed entry is unobservable forever**:
+on a healthy cache, do anything to a key (`op1`: insert, remove, lookup) and then insert or remove
+that key (`op2`); compare with doing `op2` alone.  EVERY later history of keyed writes, reads,
+lookups, index operations and by-address operations answers identically in the two worlds, and
+they reach the same abstract cache — although the two bucket files differ (one holds the shadowed
+record).  No sequence of calls can bring the shadowed entry back or even detect it. -/
+theorem shadowed_op_unobservable (env1 env2 : Env) (op1 op2 : IOp) (fs : FS) (h : Healthy cfg cache fs)
+    (hl : HexLen cfg) (w1 : OpWF cfg op1) (w2 : OpWF cfg op2) (hk : iopKey op1 = iopKey op2)
+    (hw : isIndexWrite op2 = true) (later : List (Env × COp)) (hlater : ∀ x ∈ later, x.2.WF cfg) :
+    (cRunOps cfg cache later (cRunOps cfg cache [(env1, .index op1), (env2, .index op2)] fs).2).1 =
+      (cRunOps cfg cache later (cRunOps cfg cache [(env2, .index op2)] fs).2).1 ∧
+    absCache cfg cache
+        (cRunOps cfg cache later (cRunOps cfg cache [(env1, .index op1), (env2, .index op2)] fs).2).2 =
+      absCache cfg cache (cRunOps cfg cache later (cRunOps cfg cache [(env2, .index op2)] fs).2).2 := by
+  have wf12 : ∀ x ∈ [(env1, COp.index op1), (env2, COp.index op2)], x.2.WF cfg := by
+    intro x hx; simp at hx; rcases hx with rfl | rfl; exact w1; exact w2
+  have wf2 : ∀ x ∈ [(env2, COp.index op2)], x.2.WF cfg := by
+    intro x hx; simp at hx; subst hx; exact w2
+  obtain ⟨_, b1, h1⟩ := cache_refines_map cfg cache _ fs h hl wf12
+  obtain ⟨_, b2, h2⟩ := cache_refines_map cfg cache _ fs h hl wf2
+  have habs : absCache cfg cache (cRunOps cfg cache [(env1, .index op1), (env2, .index op2)] fs).2 =
+      absCache cfg cache (cRunOps cfg cache [(env2, .index op2)] fs).2 := by
+    rw [b1, b2]
+    simp only [cSpecRun, cSpecStep]
+    rw [specStep_shadow env1 env2 _ op1 op2 hk hw]
+  exact representation_independent cfg cache later _ _ h1 h2 hl hlater habs
+
 namespace AxiomCheckSpecLaws
 open Cacache.SpecLaws
 #print axioms removeFullySpec_idem
@@ -447,6 +492,8 @@ open Cacache.SpecLaws
 #print axioms index_ops_commute
 #print axioms rewrite_is_noop
 #print axioms listings_invisible
+#print axioms specStep_shadow
+#print axioms shadowed_op_unobservable
 end AxiomCheckSpecLaws
 
 end Cacache.SpecLaws
